@@ -271,9 +271,8 @@ Section Simplify.
     end.
   (** (a + b) + c = a + (b + c), (a * b) * c = a * (b * c),
       (a - b) - c = a - (b + c), (a / b) / c = a / (b * c), pick the shorter.
-      This is the FIXED rule (inner operand built with the inverse operator, outer node with the
-      original one); the code at 1fe967a builds [b op c] and [a inv bc], see known finding
-      pending-fix-left-assoc-inverse. *)
+      (Inner operand built with the inverse operator, outer node with the original one: fix
+      457ee28; before it the code built [b op c] and [a inv bc], e.g. (x - y) - y -> x.) *)
   Definition r_assoc_l : rule := fun rec s l o r =>
     match l, o with
     | Infix a io b, (Plus | Star | Minus | Slash) =>
